@@ -9,6 +9,7 @@ RULE = ("Every parser entry point (~60 Read*/New*FromBytes functions) is run on 
         "combinations), each also with appended data and, via Sweep, on every prefix. Non-trivial = the parser accepted the input and a "
         "serialisation was compared with the consumed bytes; distinct = distinct vector content.")
 RULE += (' Every Read/Twins event also records query stability (all read-only methods of the accepted value in two passes, then the serialisation again), and a Chain of kept serialisations of two values of every structure checks that a serialisation a caller still holds is not overwritten by later calls.')
+RULE += (" Structures of every non-canonical accepted shape (excess key-certificate payload, NULL certificate, unsorted options, peer_size 0/1/3, 0..16 leases) are given real keys and a genuine signature over the wire bytes and must verify (C01's last sentence).")
 ASSUME = [common.TRUSTED, "'accepted' for ReadMapping/NewMapping = error list empty or only the documented 'data exists beyond length of mapping' warning",
           "ReadLeaseSet returns no remainder: its serialisation must be a prefix of the input (and have the reference length when the reference accepts)"]
 META = {
@@ -27,5 +28,7 @@ def check(run):
     common.mc_structs(run)
     common.gen_structs(run)
     run.gen("Gen_MapBodies")
+    # honest signed structures over the non-canonical accepted shapes: signatures are computed over the re-serialised bytes
+    run.gen("Gen_Signed")
     run.replay_and_judge()
     return vlib.finish(run, "model_checking", RULE, ASSUME)
